@@ -417,3 +417,50 @@ def write_evidence(prop, tier, level, coverage, wall, violations, assumptions):
 
 def text_of(rows):
     return "\n".join(rows)
+
+
+def run_threads(nthreads, reqs, tag="thr", timeout=600):
+    """bobdrive threads mode in a fresh process; returns (call lines, lazy lines)"""
+    d = rundir()
+    fin = os.path.join(d, "%s-%d.in" % (tag, random.randrange(1 << 30)))
+    fout = fin[:-3] + ".out"
+    with open(fin, "w") as f:
+        for r in reqs:
+            f.write(json.dumps(r) + "\n")
+    p = subprocess.run([BOBDRIVE, "threads", str(nthreads), fin, fout], stdout=subprocess.DEVNULL,
+                       stderr=subprocess.PIPE, timeout=timeout)
+    if p.returncode != 0:
+        raise ToolError("bobdrive threads failed: %s" % p.stderr.decode()[-500:])
+    calls, lazy = [], []
+    with open(fout, encoding="utf-8") as f:
+        for line in f:
+            r = json.loads(line)
+            if "lazy" in r:
+                lazy.append(r["lazy"])
+            else:
+                calls.append(r)
+    os.remove(fin)
+    os.remove(fout)
+    return calls, lazy
+
+
+def run_batch_process(reqs, tag="proc", timeout=600):
+    """one fresh bobdrive batch process over reqs in the given order; returns responses in order"""
+    d = rundir()
+    fin = os.path.join(d, "%s-%d.in" % (tag, random.randrange(1 << 30)))
+    fout = fin[:-3] + ".out"
+    with open(fin, "w") as f:
+        for r in reqs:
+            f.write(json.dumps(r) + "\n")
+    p = subprocess.run([BOBDRIVE, "batch", fin, fout], stdout=subprocess.DEVNULL, stderr=subprocess.PIPE, timeout=timeout)
+    out = []
+    with open(fout, encoding="utf-8") as f:
+        for line in f:
+            r = json.loads(line)
+            if "id" in r:
+                out.append(r)
+    os.remove(fin)
+    os.remove(fout)
+    if p.returncode != 0 or len(out) != len(reqs):
+        raise ToolError("bobdrive batch process failed (rc=%s, %d/%d)" % (p.returncode, len(out), len(reqs)))
+    return out
